@@ -125,4 +125,4 @@ def run_shard(col, cfg):
             classes.append("nonsafe-initial-hw")
         col.record(case, nontrivial, classes=classes, violations=vs,
                    sample={"method": rinfo["lines"], "steps": case["steps"][:30], "hw_init": case["hw_init"]})
-    hyp_run(S.cases(with_boom=True, templates=True), body, max(1, cfg["examples"] // col.nshards), shard_seed(col.seed, col.shard), col)
+    hyp_run(S.cases(with_boom=True, templates=True, faults=True), body, max(1, cfg["examples"] // col.nshards), shard_seed(col.seed, col.shard), col)
